@@ -380,13 +380,14 @@ theorem pushFields_completeH (ext : Ext) : ∀ (fields : SFields), noRawf fields
 theorem pushStructEntries_completeH (ext : Ext) : ∀ (es : SEntries), noRawe es = true → EntriesLoopH ext es
   | .nil, _ => by
     intro fs0 s adds sfs _ _ _ _ _ hp
-    exact ⟨s, rfl, hp.endOK (fun f => by simp [interpByKey]), by simp [vsizee]⟩
+    exact ⟨s, rfl, hp.endOK (fun f => by simp [interpByKey, keyOf_eq]), by simp [vsizee]⟩
   | .cons k x rest, hraw => by
     intro fs0 s adds sfs hm hsl ht hr hkeys hp
     have hraw' : (noRaw k = true ∧ noRaw x = true) ∧ noRawe rest = true := by simpa [noRawe] using hraw
     simp only [vsizee] at hr ⊢
-    simp only [keysAreStrings] at hkeys
+    simp only [keysAreStrings, specKey_eq, normErr_ok, normErr_error] at hkeys
     obtain ⟨key, hkey, hkeys'⟩ := (bind_ok _ _ _).1 hkeys
+    rw [normErr_ok_iff] at hkey
     have hopt := keyStr_opt hkey
     cases hidx : indexOfName s.fields.names key with
     | none =>
